@@ -39,6 +39,8 @@ pub struct Violation {
 
 #[derive(Clone, Debug)]
 pub struct WillCfg {
+    /// order of the builder calls: 0 = qos then retained, 1 = retained then qos, 2 = qos(other), retained, qos
+    pub build_order: u8,
     pub topic: String,
     pub payload: Vec<u8>,
     pub qos: u8,
@@ -66,6 +68,9 @@ pub struct RunCfg {
     pub p_stall: u32,
     pub p_io_err: u32,
     pub p_cancel: u32,
+    /// non-conformant transport: `write` returns Ok(0) for a non-empty buffer (minimq reports
+    /// WriteZero and keeps the connection); off in most runs
+    pub p_write_zero: u32,
     /// writes/flushes never stall or fail; used by timing profiles
     pub zero_time_io: bool,
     // broker policy (per mille)
@@ -83,6 +88,10 @@ pub struct RunCfg {
     /// generator avoidance guards for open known findings (see DESIGN §8)
     pub guards: bool,
     pub payload_law: u32,
+    /// 0 = normal, 1 = 300 kB arena, 2 = 4.4 MB arena (length-boundary runs)
+    pub big: u8,
+    /// IdWrap: start with a dense block of long-lived identifiers
+    pub dense_ids: bool,
 }
 
 #[derive(Clone, Debug, Default)]
@@ -169,6 +178,8 @@ pub enum RxMeta {
     Partial,
     /// raw bytes outside the ledger (enumeration scenarios judge them themselves)
     Raw,
+    /// duplicate PUBREC for an exchange already in its release phase
+    DupPubRec { reason: u8 },
 }
 
 pub struct ConnState {
@@ -218,6 +229,8 @@ pub struct ConnState {
     pub carry_acks: VecDeque<(u8, u16, Option<u8>)>,
     /// expected deliveries (bmsg index) not yet returned by poll/recv/drive
     pub expect_deliver: VecDeque<usize>,
+    /// deliveries the model leaves open (stale client-side QoS 2 state)
+    pub optional_deliver: Vec<usize>,
     /// C10 bookkeeping
     pub last_complete_t: Option<u64>,
     pub pingreq_outstanding: Option<u64>, // completion time of unanswered PINGREQ
@@ -277,6 +290,7 @@ impl ConnState {
             owed_acks: VecDeque::new(),
             carry_acks: VecDeque::new(),
             expect_deliver: VecDeque::new(),
+            optional_deliver: Vec::new(),
             last_complete_t: None,
             pingreq_outstanding: None,
             pingresp_consumed_for: None,
@@ -381,6 +395,8 @@ pub struct Delivered {
 #[derive(Copy, Clone, Debug, PartialEq, Eq)]
 pub enum Expect {
     Reject(u8),
+    /// a failing reason code in a *duplicate* acknowledgement: surfacing it is optional
+    MaybeReject(u8),
     Disconnected,
     Invalid,
     /// malformed or incomplete bytes followed by EOF: either outcome is right
@@ -445,6 +461,8 @@ pub struct World {
     pub expected_client_id: String,
     /// client-side model of pending inbound QoS 2 identifiers (for C04)
     pub client_qos2_pending: BTreeSet<u16>,
+    /// Receive Maximum the client advertised in CONNECT
+    pub client_receive_max: Option<u16>,
     /// a failing reason code was consumed: the op that consumed it must return Rejected(code)
     pub expect: Option<Expect>,
     pub disconnect_expected: Option<Packet>,
@@ -486,6 +504,8 @@ pub struct World {
     pub results: Vec<String>,
     pub force_cancel: Option<u8>,
     pub hold_acks: bool,
+    pub hold_pubcomp: bool,
+    pub force_delay: Option<u64>,
     pub raw_after_connack: Option<Vec<u8>>,
     pub raw_pieces_after_connack: Option<Vec<Vec<u8>>>,
     pub raw_instead_of_connack: Option<Vec<u8>>,
@@ -527,6 +547,7 @@ impl World {
             broker_has_session: false,
             expected_client_id,
             client_qos2_pending: BTreeSet::new(),
+            client_receive_max: None,
             expect: None,
             disconnect_expected: None,
             server_keepalive_seen: false,
@@ -560,6 +581,8 @@ impl World {
             results: Vec::new(),
             force_cancel: None,
             hold_acks: false,
+            hold_pubcomp: false,
+            force_delay: None,
             raw_after_connack: None,
             raw_pieces_after_connack: None,
             raw_instead_of_connack: None,
@@ -837,6 +860,12 @@ impl World {
                 self.log(|| format!("write({}) -> Err({:?})", buf.len(), e));
                 return Poll::Ready(Err(e));
             }
+        }
+        if !self.benign && !self.cfg.zero_time_io && self.cfg.p_write_zero > 0 && { let p = self.cfg.p_write_zero; self.s_chance(p, 1000) } {
+            self.fault("write_zero");
+            self.kind(11);
+            self.log(|| format!("write({}) -> Ok(0)  [transport violates the write contract]", buf.len()));
+            return Poll::Ready(Ok(0));
         }
         let mut n = buf.len();
         if !self.benign && buf.len() > 1 && { let p = self.cfg.p_partial_write; self.s_chance(p, 1000) } {
